@@ -106,7 +106,8 @@ impl<C: Suite> M02<C> {
         // base keys: a derived key and r-1; "other" key: another derived key
         let idx = [3usize, 2, 4];
         let sks = idx.iter().map(|i| sk_from_be::<C>(&ka.be[*i]).unwrap()).collect();
-        let msgs = vec![vec![], msg_of(seed, 33, 3), msg_of(seed, 257, 3), msg_of(seed, 40, 2)];
+        // base messages 0..3, then the "other" message, then the long base (64 KiB + 1: 16 bit length arithmetic)
+        let msgs = vec![vec![], msg_of(seed, 33, 3), msg_of(seed, 257, 3), msg_of(seed, 40, 2), msg_of(seed, 65537, 3)];
         M02 {
             tier,
             sks,
@@ -126,6 +127,18 @@ impl<C: Suite> M02<C> {
     fn msg_ops(&self, m: usize) -> Vec<MsgOp> {
         let len = self.msgs[m].len();
         let mut v = vec![];
+        if len > 4096 {
+            // long base: flips at both ends and around the 64 KiB boundary, truncation to / across the boundary
+            for byte in [0usize, 1, 4096, 16383, 16384, 65534, 65535, len - 1] {
+                v.push(MsgOp::Flip(byte * 8));
+                v.push(MsgOp::Flip(byte * 8 + 7));
+            }
+            for l in [1usize, 16384, 65535, 65536] {
+                v.push(MsgOp::Trunc(l));
+            }
+            v.extend([MsgOp::Ext(0x00), MsgOp::Ext(0xFF), MsgOp::Empty, MsgOp::Other, MsgOp::PrependPk, MsgOp::ReplaceByPk]);
+            return v;
+        }
         for i in 0..len * 8 {
             let all = self.tier.thorough() || len <= 33 || i < 8 || i >= (len - 1) * 8;
             if all || i % 8 == (i / 8) % 8 {
@@ -160,6 +173,10 @@ impl<C: Suite> M02<C> {
             3
         }
     }
+    /// the long base explores single deviations only
+    fn long(&self, m: usize) -> bool {
+        self.msgs[m].len() > 4096
+    }
 }
 
 impl<C: Suite> Model for M02<C> {
@@ -172,7 +189,7 @@ impl<C: Suite> Model for M02<C> {
         let mut v = vec![];
         for s in SCHEMES {
             for k in 0..2 {
-                for m in 0..3 {
+                for m in [0usize, 1, 2, 4] {
                     v.push(St {
                         s,
                         k,
@@ -224,6 +241,7 @@ impl<C: Suite> Model for M02<C> {
                     a.push(Act::SumBoth(i));
                 }
             }
+            1 if self.long(st.m) => {}
             1 => {
                 // second deviation: restricted operator sets, different component, canonical order
                 let in_r = st.sig.map(|o| R_SIG.contains(&o)).unwrap_or(false)
